@@ -34,6 +34,24 @@
 
 static constexpr auto kMaxEvents = 10;
 
+#ifdef OOMD_VERIF
+// Verification schedule-widening point (add-only, compiled out unless
+// OOMD_VERIF is defined; a no-op unless the linking program defines the
+// symbol): between reading a drop in file and scheduling it.
+extern "C" void oomd_verif_dropin_yield(const char* where)
+    __attribute__((weak));
+#define OOMD_VERIF_DROPIN_YIELD(where) \
+  do {                                 \
+    if (oomd_verif_dropin_yield) {     \
+      oomd_verif_dropin_yield(where);  \
+    }                                  \
+  } while (0)
+#else
+#define OOMD_VERIF_DROPIN_YIELD(where) \
+  do {                                 \
+  } while (0)
+#endif
+
 namespace Oomd {
 
 std::unique_ptr<FsDropInService> FsDropInService::create(
@@ -236,6 +254,7 @@ void FsDropInService::processDropInAdd(const std::string& file) {
   }
   std::stringstream buf;
   buf << dropin_file.rdbuf();
+  OOMD_VERIF_DROPIN_YIELD("loaded");
   Config2::JsonConfigParser json_parser;
   std::unique_ptr<Config2::IR::Root> dropin_root;
   try {
